@@ -107,6 +107,31 @@ PROPS = {
         "trusted_base": SEQ_TRUST,
         "assumptions": [],
     },
+    "C04": {
+        "streams": [seq_stream("mem", "C04"), seq_stream("clone", "C04"), seq_stream("views", "C04")],
+        "trusted_base": SEQ_TRUST + ["Drop/free-exactly-once is not modelled: checked on the real code by the counting allocator of the harness"],
+        "assumptions": ["use of freed memory by safe user code is C20; concurrent regions are C05"],
+    },
+    "C06": {
+        "streams": [seq_stream("views", "C06")],
+        "trusted_base": SEQ_TRUST + ["absence of interior mutability in the real views is not a theorem (C20 receivers + harness)"],
+        "assumptions": ["concurrently populated interners: quiescent states (C03)"],
+    },
+    "C12": {
+        "streams": [seq_stream("clone", "C12")],
+        "trusted_base": SEQ_TRUST + ["non-sharing of memory between clone and source: block audit of the harness (values own their arena in the model)"],
+        "assumptions": [],
+    },
+    "C17": {
+        "streams": [seq_stream("wrap", "C17")],
+        "trusted_base": SEQ_TRUST + ["Rust method resolution (inherent before trait) as encoded in Wrap.resolve"],
+        "assumptions": [],
+    },
+    "C18": {
+        "streams": [seq_stream("eq", "C18")],
+        "trusted_base": SEQ_TRUST,
+        "assumptions": [],
+    },
     "C11": {
         "streams": [stream_keys],
         "trusted_base": ["rustc's layout of Option<NonZero*> (size_of check is harness-only)",
